@@ -139,9 +139,10 @@ class VOpq(V):
 class VFun(V):
     """kind: 'lambda' | 'def' | 'builtin' | 'contract' | 'bound'"""
 
-    def __init__(self, kind, **kw):
-        self.kind = kind
-        self.__dict__.update(kw)
+    def __init__(*args, **kw):
+        self_, kind = args
+        self_.kind = kind
+        self_.__dict__.update(kw)
 
     def __repr__(self):
         return f"VFun({self.kind}, {getattr(self, 'name', '')})"
